@@ -18,7 +18,7 @@ from sim.world import Run
 
 ID = "C42"
 LEVEL = "exploration"
-RUNS = {"quick": 40000, "thorough": 500000}
+RUNS = {"quick": 40000, "thorough": 3000000}
 BUDGET = {"quick": 100.0, "thorough": 3300.0}
 RULE = ("one run = one BinarySensor or Switch with seeded reset_after / context_timeout and a seeded on/off telegram history "
         "whose gaps are drawn relative to the configured time (0, fraction, exactly, just above, far above); non-trivial = "
